@@ -894,6 +894,12 @@ def declsOf (w : WTypes) : List (Str × (WEnt × List (Nat × Str))) :=
   | none => []
   | some root => root.exports.filterMap fun (n, e) => (wrapperOf w e).map fun x => (n, (x.2, labelsOf w e))
 
+/-- the id under which the wrapper of each declaration exports it: name ↦ `ns:pkg/name[@version]` -/
+def declIds (w : WTypes) : List (Str × Str) :=
+  match w.comps[w.root]? with
+  | none => []
+  | some root => root.exports.filterMap fun (n, e) => (wrapperOf w e).map fun x => (n, x.1)
+
 def treeOf (w : WTypes) (ls : List (Nat × Str)) (e : WEnt) : Option Tree :=
   (Wac.Spec.Decode.entTree w (2 * w.fuel) e).map (relabelT ls)
 
@@ -981,6 +987,15 @@ def denoteSource (src : Str) : Option (Pkg × Env) :=
 /-- verdict for one encoding: first declaration that differs from the denotation -/
 def checkEncoding (w : WTypes) (p : Pkg) (env : Env) : Option String :=
   let decls := declsOf w
+  let ids := declIds w
+  -- every declaration is exported under the id of *this* package version (the whole version:
+  -- pre-release and build metadata included)
+  let badId := (p.ifaces.map (·.1) ++ p.worlds.map (·.1)).findSome? fun n =>
+    match alGet ids n with
+    | some id => if id == p.idOf n then none
+                 else some s!"declaration {String.ofList n}: exported under id {String.ofList id}, expected {String.ofList (p.idOf n)}"
+    | none => none
+  if badId.isSome then badId else
   match p.ifaces.findSome? fun (n, _) =>
       match alGet decls n, alGet env.ifaces n with
       | some (e, ls), some spec => (cmpInterface w ls e spec).map (s!"interface {String.ofList n}: " ++ ·)
